@@ -914,7 +914,9 @@ func (r *Remote) addReferenceIfRefSpecMatches(rs config.RefSpec,
 		return nil
 	}
 
-	if forceWithLease != nil {
+	// A lease that names a reference only covers that reference; every
+	// other update goes through the ordinary fast-forward rules.
+	if forceWithLease != nil && (forceWithLease.RefName.String() == "" || forceWithLease.RefName == cmd.Name) {
 		if err = r.checkForceWithLease(localRef, cmd, forceWithLease); err != nil {
 			return err
 		}
